@@ -20,6 +20,7 @@ package redisemu
 //@ subst end = 8*sq + sb + wd
 //@ requires 0 <= start && start <= end && end-start <= 63 && end < (1<<43)
 //@ ensures field: uint64(value) == specField(bytes, start, end-start+1)
+//@ ensures range: end-start == 63 || specFitsUnsigned(value, end-start+1)
 //@ loop 1 unroll 8
 
 //@ func setBitfield
@@ -37,6 +38,9 @@ package redisemu
 //@ ensures frame: forall j int :: (0 <= j && j < len(bytes) && (j < start/8 || j > (start+width-1)/8)) ==> bytes[j] == old(bytes)[j]
 //@ ensures len: len(bytes) == len(old(bytes))
 //@ loop 1 unroll 8
+
+// a BITFIELD sub-command as the command layer hands it to the store
+//@ pred bfOpWF(op *bitfieldOp) = op != nil && 1 <= op.width && op.width <= 64 && (op.signed || op.width <= 63) && 0 <= op.bitOffset && op.bitOffset < (1<<32) && op.endOffset == op.bitOffset + op.width - 1 && (op.op == BF_GET || op.op == BF_SET || op.op == BF_INCRBY)
 
 //@ func isSignedSumOverflow
 //@ pure
